@@ -41,6 +41,10 @@ pub struct LogCase {
     pub publishers:  Vec<Vec<LOp>>,
     pub listeners:   Vec<Listener>,
     pub schedule:    Schedule,
+    /// 0: none; k: another log channel whose name differs only in punctuation is created next to this one (after the prefill, alive until the
+    /// end of the run) and k-1 events of its own are published into it: a different name is a different channel, this one's history is unaffected
+    #[serde(default)]
+    pub sibling:     u8,
 }
 
 #[derive(Clone, Copy, Debug, PartialEq, Eq)]
@@ -107,9 +111,9 @@ pub fn execute(case: &LogCase) -> LogRun {
     let mut run = LogRun { end: EndState::Completed, trace: vec![], inside: 0, pubs: vec![], subs: vec![], streams: vec![], audit: vec![], audit_ended_ok: true, changed_refs: vec![], cur_ops: vec![] };
 
     // --- set-up (guarded): channel, prefill, upfront subscriptions
-    let (max_streams, n_prefill) = (case.max_streams, case.prefill);
+    let (max_streams, n_prefill, sibling) = (case.max_streams, case.prefill, case.sibling);
     let upfront: Vec<Option<Sub>> = case.listeners.iter().map(|l| if l.upfront { Some(l.sub) } else { None }).collect();
-    type Setup = (Arc<dyn Chan>, Vec<u64>, Vec<Vec<(Role, Box<dyn StreamH>)>>);
+    type Setup = (Arc<dyn Chan>, Vec<u64>, Vec<Vec<(Role, Box<dyn StreamH>)>>, Option<Arc<dyn Chan>>);
     let setup: Result<Setup, EndState> = crate::sched::guarded(20_000, move || {
         let chan = chan::make(ChanKind::MultiMmap, 2, max_streams, 0);
         let mut prefill = vec![];
@@ -119,9 +123,14 @@ pub fn execute(case: &LogCase) -> LogRun {
             if r.accepted { prefill.push(v); }
         }
         let streams = upfront.iter().map(|u| match u { Some(sub) => subscribe(&*chan, *sub), None => vec![] }).collect::<Vec<_>>();
-        (chan, prefill, LeakOnUnwind::new(streams).take())
+        let sib = if sibling > 0 {
+            let sib = chan::make_mmap_sibling(sibling, max_streams);
+            for i in 0..(sibling - 1) { let _ = sib.send(payload::plain(210, i as u32 + 1)); }
+            Some(sib)
+        } else { None };
+        (chan, prefill, LeakOnUnwind::new(streams).take(), sib)
     });
-    let (chan, prefill, upfront_streams) = match setup {
+    let (chan, prefill, upfront_streams, _sibling_chan) = match setup {
         Ok(s) => s,
         Err(end) => { run.end = end; run.cur_ops = vec!["set-up (create channel / prefill / upfront subscriptions)".into()]; return run; },
     };
@@ -433,14 +442,14 @@ impl Property for C09Log {
         let publishers = vec(vec(op, 1..=5), 1..=3);
         let listener = (prop_oneof![2 => Just(Sub::New), 4 => Just(Sub::Split), 3 => Just(Sub::Joined)], prop_oneof![4 => Just(false), 1 => Just(true)], 0u8..14, 0u8..3, any::<bool>())
             .prop_map(|(sub, upfront, pause, hold, alternate)| Listener { sub, upfront, pause, hold, alternate });
-        (prop_oneof![2 => Just(2u8), 3 => Just(4u8)], 0u8..5, publishers, vec(listener, 1..=3))
-            .prop_flat_map(|(max_streams, prefill, publishers, listeners)| {
+        (prop_oneof![2 => Just(2u8), 3 => Just(4u8)], 0u8..5, publishers, vec(listener, 1..=3), prop_oneof![5 => Just(0u8), 1 => 1u8..=4])
+            .prop_flat_map(|(max_streams, prefill, publishers, listeners, sibling)| {
                 let n = publishers.len() + listeners.len();
                 let est: u32 = publishers.iter().map(|p| p.len() as u32 * 10).sum::<u32>() + listeners.len() as u32 * 40 + 10;
-                (Just(max_streams), Just(prefill), Just(publishers), Just(listeners), sparse_or_any_schedule(n, est))
+                (Just(max_streams), Just(prefill), Just(publishers), Just(listeners), sparse_or_any_schedule(n, est), Just(sibling))
             })
-            .prop_map(|(max_streams, prefill, publishers, listeners, schedule)| {
-                let c = sanitize(LogCase { max_streams, prefill, publishers, listeners, schedule });
+            .prop_map(|(max_streams, prefill, publishers, listeners, schedule, sibling)| {
+                let c = sanitize(LogCase { max_streams, prefill, publishers, listeners, schedule, sibling });
                 // (the schedule may name thread numbers that no longer exist after sanitising: the scheduler ignores those)
                 c
             })
@@ -452,6 +461,7 @@ impl Property for C09Log {
         let run = execute(case);
         let mut classes = vec![format!("max_streams:{}", case.max_streams), format!("publishers:{}", case.publishers.len()), format!("listeners:{}", case.listeners.len())];
         for l in &case.listeners { classes.push(format!("sub:{:?}{}", l.sub, if l.upfront { "(upfront)" } else { "" })); }
+        if case.sibling > 0 { classes.push("sibling-channel-with-a-similar-name".into()); }
         let overlap = case.listeners.iter().enumerate().any(|(li, l)| !l.upfront && run.subs.get(li).map(|s| s.done && run.pubs.iter().any(|p| p.call < s.ret && s.call < p.ret)).unwrap_or(false));
         if overlap { classes.push("subscription-overlapped-a-publish".into()); }
         let n = run.audit.len();
@@ -478,7 +488,7 @@ impl Property for C09Log {
         RunReport { verdict, nontrivial, classes, fingerprint, trace: Some(run.trace.clone()), summary }
     }
     fn rule(&self) -> String {
-        "generated: MmapLog with MAX_STREAMS {2,4} x 0..4 events published beforehand x 1..3 publisher scripts of 1..5 steps (send | send_with | pause) x 1..3 listeners, each subscribing {new only | old+new split pair | old+new joined} either up front or from its own thread after 0..13 scheduling points, consuming at its own speed (hold 0..2, split pairs polled alternately or old-first) x schedule (sparse preemptions | PCT | random walk); \
+        "generated: MmapLog with MAX_STREAMS {2,4} x 0..4 events published beforehand x 1..3 publisher scripts of 1..5 steps (send | send_with | pause) x 1..3 listeners, each subscribing {new only | old+new split pair | old+new joined} either up front or from its own thread after 0..13 scheduling points, consuming at its own speed (hold 0..2, split pairs polled alternately or old-first) x {no other channel | a second live log channel whose name differs only in punctuation, with 0..3 events of its own} x schedule (sparse preemptions | PCT | random walk); \
          oracle: after the run an auditor (a joined subscription on the then listener-less channel) replays the log: it must yield exactly the accepted events, once each, at consecutive slots, in an order consistent with every producer's send order -- that order is the reference. Every stream must yield consecutive log positions at the log's own addresses; joined = [0,N); old = [0,k) then end-of-stream by itself; new of the same pair = [k,N) (nothing missing, nothing in both); new-only = a gapless suffix; every split / start point lies between 'events whose send had returned before the subscription was requested' and 'events sent after the subscription call returned'; every reference handed out still reads the same intact value at the end; \
          non-trivial: a subscription call issued during the run overlapped a publish".into()
     }
